@@ -254,6 +254,64 @@ func checkMain(args []string) int {
 		fmt.Fprintf(os.Stderr, "[%.1fs] encoded %d functions\n", time.Since(t0).Seconds(), len(results))
 	}
 	solveAll(results, dir, sec, all, 12)
+	// third attempt for contract obligations that stay undischarged: the same obligation generated without the safety
+	// sweep, i.e. without the "this dereference / index / assertion did not panic" hypotheses that the sweep adds along
+	// the path. Fewer hypotheses: a proof found there is a proof; it only helps when those extra facts slow a solver down.
+	var again []*FuncResult
+	redo := map[string]*Obligation{}
+	openKnown := map[string]bool{}
+	for _, k := range loadKnown() {
+		if k.Status != "fixed" {
+			openKnown[k.Obligation] = true
+		}
+	}
+	for _, r := range results {
+		if r.Fn == nil || r.Enc == nil || !r.Enc.sweep {
+			continue
+		}
+		need := false
+		for _, o := range r.Obls {
+			if o.Cover || o.discharged() || o.Result == nil || o.Result.Status == "sat" || o.Result.Status == "not-generated" {
+				continue
+			}
+			if openKnown[o.Name] {
+				continue // a recorded finding: not expected to discharge
+			}
+			switch {
+			case o.Class == "post", o.Class == "inv", strings.HasPrefix(o.Class, "inv-"), strings.HasPrefix(o.Class, "loop-assert"), strings.HasPrefix(o.Class, "assert"), strings.HasPrefix(o.Class, "pre@"):
+				redo[o.Name] = o
+				need = true
+			}
+		}
+		if need {
+			again = append(again, verifyFuncMode(w, ss, r.Fn, false, false))
+		}
+	}
+	if len(again) > 0 {
+		for _, r := range again {
+			var keepO []*Obligation
+			for _, o := range r.Obls {
+				if _, ok := redo[o.Name]; ok && !o.Cover {
+					keepO = append(keepO, o)
+				}
+			}
+			r.Obls = keepO
+		}
+		d2 := filepath.Join(dir, "nosweep")
+		os.MkdirAll(d2, 0755)
+		solveAll(again, d2, sec, all, 12)
+		for _, r := range again {
+			for _, o := range r.Obls {
+				if o.discharged() {
+					if orig := redo[o.Name]; orig != nil && orig.Text == o.Text {
+						res := *o.Result
+						res.Output = "discharged on the obligation generated without the safety hypotheses of the sweep"
+						orig.Result = &res
+					}
+				}
+			}
+		}
+	}
 	if dbg {
 		fmt.Fprintf(os.Stderr, "[%.1fs] solved\n", time.Since(t0).Seconds())
 	}
@@ -662,3 +720,4 @@ func runCorpus(prop string) []map[string]string {
 	}
 	return out
 }
+
